@@ -335,6 +335,15 @@ func updateReferences(st storage.Storer, req *packp.UpdateRequests, cmdStatus ma
 		}
 		exists := current != nil
 
+		// A reference is never made to point at an object the repository
+		// does not have (the new id was neither in the pack nor stored).
+		if cmd.Action() != packp.Delete {
+			if err := st.HasEncodedObject(cmd.New); err != nil {
+				setStatus(cmdStatus, firstErr, cmd.Name, fmt.Errorf("%w: missing object %s", ErrUpdateReference, cmd.New))
+				continue
+			}
+		}
+
 		switch cmd.Action() {
 		case packp.Create:
 			if exists {
